@@ -297,3 +297,57 @@
         ensures forall|x: nat| #[trigger] spans_cover(ss, k + 1, x) == (spans_cover(ss, k, x) || in_span(ss[k], x))
     {
     }
+
+    // ---- Intel HEX (C11)
+    /// R22 helper for `format!("{:02X}", x)` with any unsigned x (the argument is widened with `as u64`)
+    #[verifier::external_body]
+    pub fn verif_fmt_u64(lit: &str, a: u64) -> (r: String) ensures r@ == fmt_text(lit@, a as int, 0) { unimplemented!() }
+    pub open spec fn hex2(x: int) -> Seq<char> { fmt_text("{:02X}"@, x, 0) }
+    /// the bytes of a record, as text
+    pub open spec fn hex_bytes(bytes: Seq<u8>, n: int) -> Seq<char> decreases n {
+        if n <= 0 { Seq::empty() } else { hex_bytes(bytes, n - 1) + hex2(bytes[n - 1] as int) }
+    }
+    pub open spec fn byte_sum(bytes: Seq<u8>, n: int) -> int decreases n {
+        if n <= 0 { 0 } else { byte_sum(bytes, n - 1) + bytes[n - 1] as int }
+    }
+    /// one data record: `:LLAAAA00DD..CC\n` with LL the byte count, AAAA the address (in address units, low 16 bits),
+    /// CC the two's complement of the sum of all preceding bytes of the record
+    pub open spec fn hex_record(addr: int, bytes: Seq<u8>) -> Seq<char> {
+        let hi = (addr / 256) % 256;
+        let lo = addr % 256;
+        let sum = bytes.len() + hi + lo + byte_sum(bytes, bytes.len() as int);
+        ":"@ + hex2(bytes.len() as int) + hex2(hi) + hex2(lo) + "00"@ + hex_bytes(bytes, bytes.len() as int) + hex2((256 - sum % 256) % 256) + "\n"@
+    }
+    /// byte k of a block that starts at output bit `off` (MSB first, zero beyond the end of the output)
+    pub open spec fn block_byte(v: int, off: int, k: int) -> u8 { acc(v, off + 8 * k, 8) as u8 }
+    pub open spec fn block_bytes(v: int, off: int, from: int, to: int) -> Seq<u8> { Seq::new((to - from) as nat, |j: int| block_byte(v, off, from + j)) }
+    pub open spec fn imin(a: int, b: int) -> int { if a <= b { a } else { b } }
+    /// the first c records of a block of nbytes bytes: record j carries bytes [32j, min(32j+32, nbytes)) at the address
+    /// of its first byte
+    pub open spec fn block_records(v: int, au: int, off: int, nbytes: int, c: int) -> Seq<char> decreases c {
+        if c <= 0 { Seq::empty() }
+        else { block_records(v, au, off, nbytes, c - 1) + hex_record((off + 256 * (c - 1)) / au, block_bytes(v, off, 32 * (c - 1), imin(32 * c, nbytes))) }
+    }
+    pub open spec fn block_text(v: int, au: int, b: BitVecBlock) -> Seq<char> {
+        let nbytes = (b.size + 7) / 8;
+        block_records(v, au, b.offset as int, nbytes as int, (nbytes + 31) / 32)
+    }
+    pub open spec fn blocks_text(v: int, au: int, bs: Seq<BitVecBlock>, n: int) -> Seq<char> decreases n {
+        if n <= 0 { Seq::empty() } else { blocks_text(v, au, bs, n - 1) + block_text(v, au, bs[n - 1]) }
+    }
+    /// the block list BitVec::get_blocks returns for a span list (get_blocks is deterministic; what the list
+    /// satisfies is proved in get_blocks's own contract)
+    pub uninterp spec fn spec_blocks(spans: Seq<BitVecSpan>) -> Seq<BitVecBlock>;
+    pub open spec fn spans_fit8(spans: Seq<BitVecSpan>) -> bool {
+        forall|j: int| 0 <= j < spans.len() ==> (#[trigger] spans[j]).offset is Some ==> spans[j].offset->0 + spans[j].size + 16 <= usize::MAX
+    }
+    pub open spec fn blocks_fit8(bs: Seq<BitVecBlock>) -> bool {
+        forall|k: int| 0 <= k < bs.len() ==> (#[trigger] bs[k]).offset + bs[k].size + 16 <= usize::MAX
+    }
+    pub proof fn lemma_byte_sum_bound(bytes: Seq<u8>, n: int)
+        requires 0 <= n <= bytes.len()
+        ensures 0 <= byte_sum(bytes, n) <= 255 * n
+        decreases n
+    {
+        if n > 0 { lemma_byte_sum_bound(bytes, n - 1); }
+    }
